@@ -47,6 +47,11 @@ func (e *ATExecutor) Interceptors(hooks []exec.SQLHook) {
 func (e *ATExecutor) ExecWithNamedValue(ctx context.Context, execCtx *types.ExecContext, f exec.CallbackWithNamedValue) (types.ExecResult, error) {
 	queryParser, err := parser.DoParser(execCtx.Query)
 	if err != nil {
+		if !tm.IsGlobalTx(ctx) {
+			// outside a global transaction the statement is none of the proxy's business: what this parser does
+			// not understand (SAVEPOINT, XA START, ...) the database may well do
+			return f(ctx, execCtx.Query, execCtx.NamedValues)
+		}
 		return nil, err
 	}
 
